@@ -222,6 +222,7 @@ class Oracle:
                                        'function': node.name, 'omitted': [str(n) for n in comb], 'path': a[1],
                                        'expected': a[2], 'found': a[3]})
                         if lang == 'java' and self.use_javac and self.javac_in_powerset:
+                            pipeline.oracle_choices(x)
                             text = pipeline.translate(pipeline.new_translator('java'), P)
                             ok, errs = self._javac_ok(text)
                             if not ok:
